@@ -41,6 +41,11 @@ func runC13(p *eng.Prog, r *eng.Report, tier string) {
 		return strings.HasPrefix(f.Short, "stanza.") || strings.HasPrefix(f.Short, "stream.")
 	})
 	c.r.Floor("C13.14", "children decoded into namespaced targets", nNsD, 2)
+	rawTokensResolveXMLPrefix(c, "C13.15")
+	nSel := childSelectedByNamespace(c, "C13.16", func(f *eng.Fn) bool {
+		return strings.HasPrefix(f.Short, "stanza.") || strings.HasPrefix(f.Short, "stream.")
+	})
+	c.r.Floor("C13.16", "children selected by local name and decoded", nSel, 1)
 	// ---- C13.11 one list entry per decoded element (stanza and stream errors)
 	nApp := decodedEntryAppended(c, "C13.11", func(f *eng.Fn) bool {
 		return strings.HasPrefix(f.Short, "stanza.") || strings.HasPrefix(f.Short, "stream.")
